@@ -4,7 +4,7 @@ set -e
 export GOFLAGS=-mod=mod GOPROXY=off GOSUMDB=off GOTOOLCHAIN=local GOWORK=off
 cd /verif
 mkdir -p bin evidence replays
-(cd sim/simgen && go build -o /verif/bin/simgen .)
+(cd sim/simgen && go1.26.8 build -o /verif/bin/simgen .)
 (cd cmd/check && go build -o /verif/bin/check .)
 # warm the go1.26.8 build cache (std + harness deps), with and without the race detector
 /verif/bin/check C08 --warm >/dev/null 2>&1 || true
